@@ -80,7 +80,12 @@ func fieldAccess(p *Prog, tn *types.TypeName, fns []*FuncInfo, skip func(n ast.N
 				if sel, ok := unparen(v.Fun).(*ast.SelectorExpr); ok {
 					if fn, ok := info.Uses[sel.Sel].(*types.Func); ok {
 						if sig := fn.Type().(*types.Signature); sig.Recv() != nil {
-							if _, isPtr := sig.Recv().Type().(*types.Pointer); isPtr {
+							_, isPtr := sig.Recv().Type().(*types.Pointer)
+							// x.F.Decode(r) on an interface-typed field fills the value the field refers to
+							if _, isIface := sig.Recv().Type().Underlying().(*types.Interface); isIface && (fn.Name() == "Decode" || fn.Name() == "Unmarshal") {
+								isPtr = true
+							}
+							if isPtr {
 								if inner, ok := unparen(sel.X).(*ast.SelectorExpr); ok {
 									written[inner] = true
 									methodRecv[inner] = true
